@@ -149,6 +149,7 @@ type env struct {
 	mu       sync.Mutex
 	invLog   []invEvent // OnInvalidations callback log
 	delayLog []delayEvent
+	mainHash string // event-log hash at the end of the workload phase (runHooks.hashMainPhase)
 }
 
 type fakeredisSrvConn = fakeredis.SrvConn
@@ -203,6 +204,7 @@ func newEnv(seed uint64, p *Plan, out *Outcome) *env {
 	muxwireName.Store(&name)
 	out.Config = p.label()
 	muxRegReset(0)
+	richIdent.Store(false)
 	curSim.Store(s)
 	return e
 }
